@@ -67,7 +67,7 @@ def gen_script(rnd, tier):
             elif r < 0.65 and nc:
                 toks.append("c%d" % rnd.randint(1, nc))
             elif r < 0.85:
-                o, c = rnd.choice(["()", "[]"])
+                o, c = rnd.choice([("(", ")"), ("[", "]"), ("G(", ")")])
                 toks += [o] + tree(d + 1, pool) + [c]
             else:
                 toks += ["D("] + tree(d + 1, pool) + [")"]
@@ -124,7 +124,7 @@ def parse(toks, pos=0):
         pos += 1
         if t in (")", "]"):
             return acc, pos
-        if t in ("(", "[", "D("):
+        if t in ("(", "[", "D(", "G("):
             inner, pos = parse(toks, pos)
             acc.append(("seq", inner))
         else:
